@@ -99,6 +99,11 @@ class Prop:
     """The JSON value sent to the Lean driver for this case (None: case has no model part)."""
     return case
 
+  def model_request_with_impl(self, case, impl_out):
+    """Model request when it needs the implementation's output (e.g. a recorded randomness
+    oracle). Default: model_request(case)."""
+    return self.model_request(case)
+
   def compare(self, case, impl_out, model_out):
     """None if model and implementation agree on this case, else a short description."""
     a = self.project_impl(case, impl_out)
@@ -648,7 +653,10 @@ def _evaluate(ctx, prop, cases, jobs, driver_ok, known, search=False):
   if prop.driver and driver_ok:
     reqs, idx = [], []
     for i, c in enumerate(cases):
-      r = prop.model_request(c)
+      io_i = impl_outs[i]
+      if isinstance(io_i, dict) and (io_i.get('timeout') or io_i.get('impl_exception')):
+        continue
+      r = prop.model_request_with_impl(c, io_i)
       if r is not None:
         reqs.append(r)
         idx.append(i)
@@ -704,11 +712,11 @@ def run_replay(prop, path):
     rep = json.load(f)
   known = [f for f in load_findings(prop.id) if f.get('status') == 'known']
 
-  def model_of(case):
+  def model_of(case, out=None):
     if not (prop.driver and os.path.exists(Driver(prop.driver).path)):
       return None
     try:
-      r = prop.model_request(case)
+      r = prop.model_request_with_impl(case, out) if out is not None else prop.model_request(case)
       return None if r is None else Driver(prop.driver).run([r])[0]
     except InfraError as e:
       print('model   : unavailable (%s)' % e)
@@ -718,7 +726,7 @@ def run_replay(prop, path):
     out, fail = check_case(prop, rep['input'])
     print('input   :', json.dumps(rep['input'])[:2000])
     print('observed:', json.dumps(out, default=str)[:2000])
-    mo = model_of(rep['input'])
+    mo = model_of(rep['input'], out)
     if mo is not None:
       print('model   :', json.dumps(mo)[:2000])
     if fail:
@@ -746,7 +754,7 @@ def run_replay(prop, path):
   fd = rep.get('first_disagreement')
   if fd and not broken:
     out, fail = check_case(prop, fd['case'])
-    mo = model_of(fd['case'])
+    mo = model_of(fd['case'], out)
     print('input   :', json.dumps(fd['case'])[:2000])
     print('observed:', json.dumps(out, default=str)[:1500])
     print('model   :', json.dumps(mo)[:1500])
